@@ -3,6 +3,8 @@
 package pdf
 
 import (
+	"bytes"
+
 	"seehuhn.de/go/pdf/internal/verifrt"
 )
 
@@ -209,5 +211,116 @@ func Verif_C18_pair_interleavings() {
 	}
 	if w0 != nil {
 		verifrt.Assert(wLater == w0, "a later decode returns the shared widget")
+	}
+}
+
+// verifOddFile is a small file with a well-formed object, an object nested
+// deeper than the scanner allows, a syntactically broken object and a missing
+// one: the error paths are where package-level state would be shared.
+func verifOddFile() []byte {
+	var f []byte
+	add := func(s string) int {
+		off := len(f)
+		f = append(f, s...)
+		return off
+	}
+	add("%PDF-1.4\n")
+	var offs [6]int
+	offs[1] = add("1 0 obj\n<</Type/Catalog/Pages 2 0 R>>\nendobj\n")
+	offs[2] = add("2 0 obj\n<</Type/Pages/Kids[]/Count 0>>\nendobj\n")
+	offs[3] = add("3 0 obj\n<</A (abc)/B[1 2 3]>>\nendobj\n")
+	deep := "4 0 obj\n"
+	for i := 0; i < 300; i++ {
+		deep += "["
+	}
+	for i := 0; i < 300; i++ {
+		deep += "]"
+	}
+	offs[4] = add(deep + "\nendobj\n")
+	offs[5] = add("5 0 obj\n<< /A >> ) \nendobj\n")
+	x := add("xref\n0 7\n0000000000 65535 f \n")
+	for i := 1; i <= 5; i++ {
+		s := "0000000000" + itoa(offs[i])
+		add(s[len(s)-10:] + " 00000 n \n")
+	}
+	add("0000000000 00001 f \n")
+	add("trailer\n<</Size 7/Root 1 0 R>>\nstartxref\n" + itoa(x) + "\n%%EOF\n")
+	return f
+}
+
+func itoa(n int) string {
+	if n == 0 {
+		return "0"
+	}
+	var b []byte
+	for n > 0 {
+		b = append([]byte{byte('0' + n%10)}, b...)
+		n /= 10
+	}
+	return string(b)
+}
+
+// verifReadAll opens its own Reader on data and fetches objects 1..6; the
+// outcome of every call is rendered as text (value kind or error message).
+func verifReadAll(data []byte) []string {
+	var out []string
+	r, err := NewReader(bytes.NewReader(data), int64(len(data)), nil)
+	if err != nil {
+		return []string{"open: " + err.Error()}
+	}
+	for n := uint32(1); n <= 6; n++ {
+		obj, err := r.Get(NewReference(n, 0), true)
+		switch {
+		case err != nil:
+			out = append(out, "error: "+err.Error())
+		case obj == nil:
+			out = append(out, "null")
+		default:
+			var b bytes.Buffer
+			Format(&b, 0, obj)
+			out = append(out, b.String())
+		}
+	}
+	return out
+}
+
+// Verif_C18_independent_readers: two goroutines, each with its own Reader on
+// its own copy of a file with malformed objects, and a second sequential
+// pass: every call returns exactly what it returns alone (the same values and
+// the same error texts), and the goroutines share no unsynchronised state --
+// package-level variables included.
+func Verif_C18_independent_readers() {
+	verifrt.Unwind(100000)
+	data := verifOddFile()
+	alone := verifReadAll(append([]byte{}, data...))
+	verifrt.Assert(len(alone) == 6, "file opens")
+	again := verifReadAll(append([]byte{}, data...))
+	same := len(again) == len(alone)
+	for i := range alone {
+		if i < len(again) && again[i] != alone[i] {
+			same = false
+		}
+	}
+	verifrt.Assert(same, "a second Reader returns what the first returned (no state left behind)")
+	G := 2
+	results := make([][]string, G+1)
+	verifrt.StartSched()
+	for i := 1; i <= G; i++ {
+		gid := i
+		own := append([]byte{}, data...)
+		verifrt.Go(func() {
+			results[gid] = verifReadAll(own)
+		})
+	}
+	verifrt.WaitAll()
+	verifrt.Cover("all goroutines finished")
+	for i := 1; i <= G; i++ {
+		ok := len(results[i]) == len(alone)
+		for k := range alone {
+			if k < len(results[i]) && results[i][k] != alone[k] {
+				ok = false
+			}
+		}
+		verifrt.Assert(ok, "concurrent independent Readers return what each returns alone")
 	}
 }
